@@ -330,7 +330,7 @@ _I = lambda n: {"cls": "Identity", "n": n, "batch": []}
 PASS_EXPR = {
     "RootI": lambda rng, n: {"cls": "Root", "root": _I(n)},
     "MatmulII": lambda rng, n: {"cls": "Matmul", "l": _I(n), "r": _I(n)},
-    "AddedDiagI": lambda rng, n: {"cls": "AddedDiag", "base": _I(n), "diag": {"cls": "Diag", "d": opbuild.rand_t(rng, [n], 1, 3)}},
+    "AddedDiagMatmulII": lambda rng, n: {"cls": "AddedDiag", "base": {"cls": "Matmul", "l": _I(n), "r": _I(n)}, "diag": {"cls": "Diag", "d": opbuild.rand_t(rng, [n], 1, 3)}},
     "AddedDiagRootI": lambda rng, n: {"cls": "AddedDiag", "base": {"cls": "Root", "root": _I(n)}, "diag": {"cls": "ConstantDiag", "c": opbuild.rand_t(rng, [1], 1, 3), "n": n}},
 }
 PASS_DERIVS = ["none", "add_jitter", "add_diagonal_scalar", "add_diagonal_vector", "add_diag_operator", "add_tensor", "mul_const", "expand",
